@@ -393,7 +393,7 @@ def analyse(sc, real, ses, exps):
                                           ("keyword", o["filter"] and not sc["matches"][t])) if c)
             fails.append((f"unselected-test-judged: excluded-by={why} -> {got[0]} ran={ranstr(begin[t], end[t])}",
                           "a test outside the documented selection was judged or run", detail))
-        elif "skip" in m and (got[0] != "none" or begin[t] or end[t]):
+        elif "skip" in m and (got[0] not in ("none", "SKIPPED") or begin[t] or end[t]):
             fails.append((f"skip-test-mishandled: -> {got[0]} ran={ranstr(begin[t], end[t])}",
                           "a @skip test must be reported SKIPPED and must not run", detail))
         elif harness[t] == "empty":
